@@ -16,10 +16,15 @@ REL = "claripy/backends/backend_concrete/bv.py"
 _c = {}
 
 
-def load():
-    if "ns" not in _c:
-        _c["ns"] = loader.load(REL, "claripy.backends.backend_concrete.bv")
-    return _c["ns"]
+def load(debug=True):
+    """debug=False: the same source with claripy.debug._DEBUG off (the extra argument checks are debug-only; the value semantics must not be)"""
+    k = "ns" if debug else "ns-nodebug"
+    if k not in _c:
+        if debug:
+            _c[k] = loader.load(REL, "claripy.backends.backend_concrete.bv")
+        else:
+            _c[k] = loader.load(REL, "claripy.backends.backend_concrete.bv", overrides={"_d": type("debug", (), {"_DEBUG": False})})
+    return _c[k]
 
 
 METHODS2 = {"__add__": "__add__", "__sub__": "__sub__", "__mul__": "__mul__", "__mod__": "__mod__",
@@ -75,10 +80,10 @@ def _run(c, label, f, allowed=()):
         return False, None
 
 
-def ob_bin(how, name, w, tier="quick"):
+def ob_bin(how, name, w, tier="quick", debug=True):
     kind = how
     """kind: method | rmethod | func | cmpm | cmpf"""
-    ns = load()
+    ns = load(debug)
     proxies.set_iw(2 * w + 12)      # the stated size bound of C04: every intermediate integer fits 2*w+12 bits
     from claripy.errors import ClaripyZeroDivisionError
 
@@ -114,6 +119,13 @@ def ob_bin(how, name, w, tier="quick"):
             c.check(label + "/value", proxies.zbool(r) == ref, "folded truth value differs from the SMT-LIB meaning")
             return "ret"
         _check_val(c, label, r, ref, w, ns)
+        # frame: the operands are values - the concrete backend hands out ONE object per constant (convert() caches it), so an operation
+        # that writes into an operand changes what that constant means in every later fold
+        for nm, obj, v in (("first", a, x), ("second", b, y)):
+            if obj.bits != w:
+                c.fail(label + "/operand-unchanged", f"the {nm} operand's width was changed to {obj.bits}")
+            else:
+                c.check(label + "/operand-unchanged", _bv(obj.value) == _bv(v), f"the operation wrote into its {nm} operand")
         return "ret"
 
     return explore(body, _opts(tier, w))
@@ -199,6 +211,17 @@ def replay_bin(task, failure):
     wit = failure["witness"]
     if "x" not in wit:
         return {"reproduced": False, "text": "no operand values in witness"}
+    import claripy.debug as dbg
+    old_debug = dbg._DEBUG
+    if kw.get("debug") is False:
+        dbg._DEBUG = False
+    try:
+        return _replay_bin(bv, Z, kw, name, w, kind, wit, failure)
+    finally:
+        dbg._DEBUG = old_debug
+
+
+def _replay_bin(bv, Z, kw, name, w, kind, wit, failure):
     a = bv.BVV(wit["x"], w)
     b = bv.BVV(wit.get("y", 0), w)
     opmap = {**METHODS2, **RMETHODS2}
@@ -215,6 +238,10 @@ def replay_bin(task, failure):
         from claripy.errors import ClaripyZeroDivisionError
         bad = not (isinstance(e, ClaripyZeroDivisionError) and wit.get("y", 1) == 0)
         return {"reproduced": bad, "text": f"bv.{name}({wit}) raised {type(e).__name__}: {e}"}
+    if "operand-unchanged" in str(failure.get("label")):
+        bad = a.value != wit["x"] or b.value != wit.get("y", 0)
+        return {"reproduced": bad, "text": f"bv.{name}(BVV({wit['x']}, {w}), BVV({wit.get('y', 0)}, {w})): afterwards the operands hold {a.value} and {b.value}"
+                + (" - the constant objects the backend caches were written into" if bad else "")}
     op = opmap.get(name, name)
     zs = [Z.BitVecVal(l, w)] + ([Z.BitVecVal(rr, w)] if rr is not None else [])
     ref = Z.simplify(S.sem(op, zs))
